@@ -51,7 +51,18 @@ def _violations(prop, repo, verif):
 
 
 def run(prop, repo, verif, R):
-    seeds = sorted(glob.glob(os.path.join(verif, "seeded", prop + "-*", "patch.diff")) + glob.glob(os.path.join(verif, "seeded", prop + "r[0-9]-*", "patch.diff")))
+    # a seeded change is self-tested by the check that claims it: the first word of meta.json's "detected_by" (normally the property it was
+    # written against; a few are decided by a neighbouring property's check, e.g. a parser panic by the C13 predicate rule)
+    seeds = []
+    for mp in sorted(glob.glob(os.path.join(verif, "seeded", "*", "meta.json"))):
+        try:
+            det = (json.load(open(mp)).get("detected_by") or "").split()
+        except Exception:
+            det = []
+        claimed = det[0] if det and det[0].startswith("C") else os.path.basename(os.path.dirname(mp))[:3]
+        pd = os.path.join(os.path.dirname(mp), "patch.diff")
+        if claimed == prop and os.path.exists(pd):
+            seeds.append(pd)
     if not seeds:
         R.selftests.append({"seed": None, "outcome": "no seeded change recorded for this property"})
         return
